@@ -376,7 +376,7 @@ pub fn run(thorough: bool) -> Vec<Part> {
     let mut part = Part::new("C05", "builder-states-r", "model_checking");
     part.assume("breadth-first search over Response builder states: 2 versions x 11 status codes x all call sequences of length <= N (N = 4 quick, 5 thorough) over set_body (6 bodies: empty, 1 byte, contains CRLFCRLF, looks like a response, NUL/0xFF/CRLF bytes, large), set_content_type x2, set_deprecation, set_encoding, set_server x3 (one of 280 bytes), set_allow x4 (one with 40 methods), allow_method x3, de-duplicated on the pair (Debug rendering of the Response, reference model state); a sweep over body lengths (every length 0..4200 plus boundaries up to 64 KiB quick; every length 0..65536 thorough); every state is serialized into sinks accepting 1, 2, 3, 7, 64 bytes per write and 6 mixed patterns and re-read by an independent response reader, alone and followed by other bytes");
     part.assume("the default Content-Type and Server values are not judged (the statement names the lines, not their defaults); set_content_length is exercised only by the 'unless explicitly set' side check; header text containing CR/LF passed to set_server is outside the property");
-    let sys = Sys { bodies: bodies(if thorough { 65536 } else { 3000 }), max_calls: if thorough { 5 } else { 4 } };
+    let sys = Sys { bodies: bodies(if thorough { 65536 } else { 9000 }), max_calls: if thorough { 5 } else { 4 } };
     let limits = Limits { max_states: 12_000_000, max_secs: if thorough { 3000.0 } else { 100.0 }, ..Default::default() };
     let st = bfs(&sys, &limits, workers());
     record(&mut part, "builder-states", &st);
@@ -449,6 +449,14 @@ pub fn run(thorough: bool) -> Vec<Part> {
                     r.set_body(Body::new(body.clone()));
                     let mut b = vec![];
                     r.write_all(&mut b).unwrap();
+                    if n % 64 == 0 || (n % 4096) < 3 || (n % 4096) > 4093 {
+                        // same bytes through a sink that accepts 1000 bytes per write
+                        let mut sink = ChunkSink { out: vec![], pattern: vec![1000], i: 0 };
+                        r.write_all(&mut sink).unwrap();
+                        if sink.out != b {
+                            t.violate("sink-dependent-bytes", format!("a {}-byte body written into a sink accepting 1000 bytes per write gives {} bytes, {} into a Vec", n, sink.out.len(), b.len()), json!({"engine": "c05len", "len": n}));
+                        }
+                    }
                     b.extend_from_slice(b"HTTP/1.1 204 \r\nServer: x\r\nConnection: keep-alive\r\n\r\n");
                     t.evals += 1;
                     if n >= 10 {
